@@ -498,6 +498,43 @@ var probeTpls = []probeTpl{
 	{"groups ',', '' vs ',,'", "group name contains ','", "u", "u", []string{",", ""}, []string{",,"}},
 }
 
+// Boundary probes: pairs of questions whose flattened forms coincide when user and group list (or
+// the names of the list) are glued together with a separator or printed with %v / %s: the boundary
+// between the user and the groups, and between the names, must survive whatever the caches key by.
+func init() {
+	seps := []struct{ s, name string }{
+		{":", "':'"}, {",", "','"}, {"|", "'|'"}, {"/", "'/'"}, {" ", "space"}, {"", "nothing"}, {"\x00", "NUL"},
+		{" [", "' [' (%v of a slice)"}, {"] ", "'] ' (%v of a slice)"}, {"} {", "'} {' (%v of a struct)"},
+	}
+	for _, sp := range seps {
+		S, ub, gb := sp.s, "user/groups boundary glued with "+sp.name, "group names glued with "+sp.name
+		probeTpls = append(probeTpls,
+			probeTpl{"user 'm' group 'e" + S + "x' vs user 'm" + S + "e' group 'x'", ub, "m", "m" + S + "e", []string{"e" + S + "x"}, []string{"x"}},
+			probeTpl{"user 'm' groups 'e','x' vs user 'm" + S + "e' group 'x'", ub, "m", "m" + S + "e", []string{"e", "x"}, []string{"x"}},
+			probeTpl{"user 'm@x.test' group 'eng" + S + "admins' vs user 'm@x.test" + S + "eng' group 'admins'", ub, "m@x.test", "m@x.test" + S + "eng", []string{"eng" + S + "admins"}, []string{"admins"}},
+		)
+		if S != "" {
+			probeTpls = append(probeTpls,
+				probeTpl{"user 'm' group '" + S + "x' vs user 'm" + S + "' group 'x'", ub, "m", "m" + S, []string{S + "x"}, []string{"x"}},
+				probeTpl{"user 'm' group 'e" + S + "' no more vs user 'm" + S + "e' group ''", ub, "m", "m" + S + "e", []string{"e" + S}, []string{""}},
+			)
+		}
+		if S != "," && S != "" { // those two are among the first templates
+			probeTpls = append(probeTpls,
+				probeTpl{"same user, group 'e" + S + "x' vs groups 'e','x'", gb, "u", "u", []string{"e" + S + "x"}, []string{"e", "x"}},
+				probeTpl{"same user, groups 'a" + S + "b','c' vs 'a','b" + S + "c'", gb, "u", "u", []string{"a" + S + "b", "c"}, []string{"a", "b" + S + "c"}},
+			)
+		}
+	}
+	// printed forms of the whole question
+	probeTpls = append(probeTpls,
+		probeTpl{"user 'm [e' group 'x' vs user 'm' group '[e x'", "user/groups boundary under %v", "m [e", "m", []string{"x"}, []string{"[e x"}},
+		probeTpl{"user 'm' groups '[e]' vs user 'm [e]' no groups", "user/groups boundary under %v", "m", "m [e]", []string{"[e]"}, []string{}},
+		probeTpl{"user '{m e' group 'x}' vs user '{m' group 'e x}'", "user/groups boundary under %v", "{m e", "{m", []string{"x}"}, []string{"e x}"}},
+		probeTpl{"user 'm\"' group 'x' vs user 'm' group '\"x' (quotes)", "user/groups boundary under %q", "m\" \"", "m", []string{"x"}, []string{"\" \"x"}},
+	)
+}
+
 func runOktaProbe(rep *vh.Report, env vh.Env, i int) {
 	const stream = "okta-probe"
 	r := vh.CaseRNG(env.Seed, stream, i)
@@ -555,6 +592,9 @@ func runOktaProbe(rep *vh.Report, env vh.Env, i int) {
 	} else {
 		rep.Count("probe_pairs_kept_apart", 1)
 		rep.SetAdd("probe_pairs_kept_apart", tpl.name)
+		if strings.HasPrefix(tpl.class, "user/groups boundary") || strings.HasPrefix(tpl.class, "group names glued") {
+			rep.Count("probe_boundary_pairs_kept_apart", 1)
+		}
 	}
 	rep.Distinct("okta-probe|" + tpl.name + "|" + desc)
 }
